@@ -571,11 +571,16 @@ class BaseCurve(Intface_BaseCurve):
                         newpoint = line[j] * point
                         newpoint /= newweights[i]
                         newctrlpoints[i] += newpoint
-        self.ctrlpoints = None
-        self.weights = None
-        self.knotvector = newknotvector
-        self.weights = newweights
-        self.ctrlpoints = newctrlpoints
+        oldstate = self.__knotvector, self.__ctrlpoints, self.__weights
+        try:
+            self.ctrlpoints = None
+            self.weights = None
+            self.knotvector = newknotvector
+            self.weights = newweights
+            self.ctrlpoints = newctrlpoints
+        except ValueError as error:  # e.g. a matrix with the wrong number of rows
+            self.__knotvector, self.__ctrlpoints, self.__weights = oldstate
+            raise error
 
 
 class Curve(BaseCurve):
